@@ -12,11 +12,11 @@ Conventions.
   by construction.  Scalars (`step=2`, `dilation=None`) are expanded to length-`k` sequences exactly as
   lines 146-148, 172-176 of utils.py do; with `dilation=None` the `w*d > x` guard is skipped by the code,
   which is equivalent because then `d = 1` and `w > x` was already rejected.
-  Sequences of *unequal* length are outside this model (the harness checks them with the direct oracle only).
-* Strides are in *elements*.  `nb` is `arr.strides[-1] / arr.itemsize` of the array that reaches the
-  stride computation (line 204: `nbyte = arr.strides[-1]`); the code multiplies every stride by it.
-  For an ordinary C-contiguous array `nb = 1`; NumPy also flags e.g. `a[:, None]` (last stride 0) and
-  `row.T` (last stride = row length) as C-contiguous, and then `nb ≠ 1`.
+  `swvSeq` is the sequence-level front end: it mirrors the guards on the *lengths* of `window_shape`,
+  `step`, `dilation` (l.134, l.150-152, l.182-184) and then hands per-axis records to `swv`.
+* Strides are in *elements*: the code multiplies every element stride by `nbyte = arr.itemsize`
+  (l.206, since commit e458ff4; before, `arr.strides[-1]` was used, which is not the item size for arrays
+  such as `a[:, None]` or `row.T` that NumPy nevertheless flags C-contiguous).
 * Memory is a flat function `Mem := Int → Int` (element offset ↦ value); the element `arr[idx]` of a
   C-contiguous array of shape `sh` is `mem (dot idx (cstrides sh))`; the element `v[idx]` of an
   `as_strided` view is `mem (dot idx v.strides)`.
@@ -88,7 +88,7 @@ def swvGuard (batch : List Int) (axes : List Ax) : Option Err :=
 
 /-- `sliding_window_view(arr, window, step, dilation)` for `arr.shape = batch ++ axes.map x`:
 the shape and strides handed to `as_strided` (l.201-228). -/
-def swv (batch : List Int) (axes : List Ax) (nb : Int) : Except Err View :=
+def swv (batch : List Int) (axes : List Ax) : Except Err View :=
   match swvGuard batch axes with
   | some e => .error e
   | none =>
@@ -98,7 +98,7 @@ def swv (batch : List Int) (axes : List Ax) (nb : Int) : Except Err View :=
     let stepStride := List.zipWith (· * ·) sc (axes.map (·.s))              -- l.210
     let winStride := front ++ List.zipWith (· * ·) sc (axes.map (·.d))      -- l.213-215
     .ok { shape := axes.map grid ++ batch ++ axes.map (·.w)                 -- l.222-226
-          strides := (stepStride ++ winStride).map (nb * ·)                 -- l.219
+          strides := stepStride ++ winStride                                -- l.221 (× itemsize)
           writeable := false }
 
 /-- position along each windowed axis addressed by grid index `g` and in-window index `k`:
@@ -106,6 +106,25 @@ def swv (batch : List Int) (axes : List Ax) (nb : Int) : Except Err View :=
 def pos : List Int → List Int → List Ax → List Int
   | g :: gs, k :: ks, a :: as => (g * a.s + k * a.d) :: pos gs ks as
   | _, _, _ => []
+
+/-- per-axis records from the trailing axis sizes and the three argument sequences -/
+def mkAxes : List Int → List Int → List Int → List Int → List Ax
+  | x :: xs, w :: ws, s :: ss, d :: ds => ⟨x, w, s, d⟩ :: mkAxes xs ws ss ds
+  | _, _, _, _ => []
+
+/-- `sliding_window_view(arr, window_shape, step, dilation)` on argument *sequences* (`step` an int is the
+sequence `(step,)*k`, `dilation=None` is `none`): the guards on the lengths, then `swv`.
+l.128 `TypeError` for a non-positive window entry comes first; l.134 `len(window_shape) > arr.ndim`,
+l.150-152 `len(step) != len(window_shape)` and l.182-184 `len(dilation) != len(window_shape)` are all
+`ValueError`s, as is every later guard, so their relative order is not observable. -/
+def swvSeq (shape window step : List Int) (dil : Option (List Int)) : Except Err View :=
+  if !(window.all fun w => decide (0 < w)) then .error .typeError
+  else if shape.length < window.length then .error .valueError
+  else if step.length ≠ window.length then .error .valueError
+  else if (dil.getD (window.map fun _ => 1)).length ≠ window.length then .error .valueError
+  else
+    swv (shape.take (shape.length - window.length))
+      (mkAxes (shape.drop (shape.length - window.length)) window step (dil.getD (window.map fun _ => 1)))
 
 /-! ## memory, multi-indices -/
 
@@ -131,7 +150,7 @@ def maxL : List Int → Int
 def memOf (buf : List Int) : Mem := fun off => if 0 ≤ off then buf.getD off.toNat 0 else 0
 
 /-- does a view address an offset outside `[0, size)`?  (executable; the theorem `swv_in_bounds`
-says it never does when `nb = 1`) -/
+says an accepted view never does) -/
 def viewOOB (v : View) (size : Int) : Bool :=
   (indices v.shape).any fun idx => let o := dot idx v.strides; decide (o < 0) || decide (size ≤ o)
 
@@ -168,15 +187,11 @@ def sumL : List Int → Int
   | [] => 0
   | x :: xs => x + sumL xs
 
-/-- the stride unit that reaches `sliding_window_view`: `np.pad` (taken iff `sum(padding)` is truthy)
-returns a fresh ordinary array -/
-def convNb (axes : List CAx) (nb : Int) : Int := if sumL (axes.map (·.p)) = 0 then nb else 1
-
 /-- the windowed view `conv_nd` contracts over (l.86): `sliding_window_view(pad(x), w_shape, stride, dilation)` -/
-def convView (n c cw : Int) (axes : List CAx) (nb : Int) : Except Err View :=
+def convView (n c cw : Int) (axes : List CAx) : Except Err View :=
   match convGuard c cw axes with
   | some e => .error e
-  | none => swv [n, c] (axes.map CAx.padded) (convNb axes nb)
+  | none => swv [n, c] (axes.map CAx.padded)
 
 /-- shape of the padded data -/
 def convPShape (n c : Int) (axes : List CAx) : List Int := [n, c] ++ axes.map fun a => a.x + 2 * a.p
@@ -218,9 +233,9 @@ def padBuf (n c : Int) (axes : List CAx) (xbuf : List Int) : List Int :=
       memOf xbuf (dot src (cstrides xsh)) else 0
 
 /-- `conv_nd` on integer data: result shape and row-major values, computed as the code does -/
-def convImpl (n c cw f : Int) (axes : List CAx) (nb : Int) (xbuf wbuf : List Int) :
+def convImpl (n c cw f : Int) (axes : List CAx) (xbuf wbuf : List Int) :
     Except Err (List Int × List Int) :=
-  match convView n c cw axes nb with
+  match convView n c cw axes with
   | .error e => .error e
   | .ok v =>
     let xmem := memOf (if sumL (axes.map (·.p)) = 0 then xbuf else padBuf n c axes xbuf)
@@ -229,9 +244,9 @@ def convImpl (n c cw f : Int) (axes : List CAx) (nb : Int) (xbuf wbuf : List Int
          (indices (convOutShape n f axes)).map (convImplGet xmem v (memOf wbuf) c ws))
 
 /-- the naive evaluation over the same domain (rejects exactly when `convView` does) -/
-def convNaive (n c cw f : Int) (axes : List CAx) (nb : Int) (xbuf wbuf : List Int) :
+def convNaive (n c cw f : Int) (axes : List CAx) (xbuf wbuf : List Int) :
     Except Err (List Int × List Int) :=
-  match convView n c cw axes nb with
+  match convView n c cw axes with
   | .error e => .error e
   | .ok _ =>
     let xmem := memOf (if sumL (axes.map (·.p)) = 0 then xbuf else padBuf n c axes xbuf)
@@ -262,10 +277,10 @@ def poolGuard (axes : List PAx) : Option Err :=
   else none
 
 /-- the windowed view `max_pool` reduces (l.93): `sliding_window_view(x, pool, stride)` -/
-def poolView (batch : List Int) (axes : List PAx) (nb : Int) : Except Err View :=
+def poolView (batch : List Int) (axes : List PAx) : Except Err View :=
   match poolGuard axes with
   | some e => .error e
-  | none => swv batch (axes.map PAx.toAx) nb
+  | none => swv batch (axes.map PAx.toAx)
 
 def poolOutShape (batch : List Int) (axes : List PAx) : List Int :=
   batch ++ axes.map fun a => grid a.toAx
@@ -284,27 +299,27 @@ def poolNaiveGet (mem : Mem) (batch : List Int) (axes : List PAx) (idx : List In
     arrGet mem (batch ++ axes.map (·.x))
       (idx.take batch.length ++ pos (idx.drop batch.length) k (axes.map PAx.toAx)))
 
-def maxPoolImpl (batch : List Int) (axes : List PAx) (nb : Int) (buf : List Int) :
+def maxPoolImpl (batch : List Int) (axes : List PAx) (buf : List Int) :
     Except Err (List Int × List Int) :=
-  match poolView batch axes nb with
+  match poolView batch axes with
   | .error e => .error e
   | .ok v =>
     .ok (poolOutShape batch axes,
          (indices (poolOutShape batch axes)).map
            (poolImplGet (memOf buf) v batch.length (axes.map (·.w))))
 
-def maxPoolNaive (batch : List Int) (axes : List PAx) (nb : Int) (buf : List Int) :
+def maxPoolNaive (batch : List Int) (axes : List PAx) (buf : List Int) :
     Except Err (List Int × List Int) :=
-  match poolView batch axes nb with
+  match poolView batch axes with
   | .error e => .error e
   | .ok _ =>
     .ok (poolOutShape batch axes,
          (indices (poolOutShape batch axes)).map (poolNaiveGet (memOf buf) batch axes))
 
 /-- values of the window view itself, row-major (for the correspondence on `sliding_window_view`) -/
-def swvValues (batch : List Int) (axes : List Ax) (nb : Int) (buf : List Int) :
+def swvValues (batch : List Int) (axes : List Ax) (buf : List Int) :
     Except Err (View × List Int) :=
-  match swv batch axes nb with
+  match swv batch axes with
   | .error e => .error e
   | .ok v => .ok (v, (indices v.shape).map (viewGet (memOf buf) v))
 
